@@ -127,6 +127,14 @@ func (w *scriptStringWriter) WriteString(s string) (int, error) {
 	return w.scriptWriter.Write([]byte(s))
 }
 
+// scriptFlushWriter is a scriptWriter which also offers the optional methods of buffering and file-like destinations,
+// all of which succeed: the failure of a Write is not undone by a Flush, Sync or Close that has nothing to report.
+type scriptFlushWriter struct{ scriptWriter }
+
+func (w *scriptFlushWriter) Flush() error { return nil }
+func (w *scriptFlushWriter) Sync() error  { return nil }
+func (w *scriptFlushWriter) Close() error { return nil }
+
 type c15Renderer struct {
 	name string
 	to   func(t tabular.Table, w io.Writer) error
@@ -225,8 +233,8 @@ func c15Inject(c *Ctx, spec *gen.TableSpec, skipable bool, sample bool) {
 		// also: Render() must equal what RenderTo wrote
 		c.Rec.Eval(gen.Hash64(spec.Shape(), fmt.Sprint(textsOf(spec)), rd.name, fmt.Sprint(skipable)), n > 0)
 		for k := 1; k <= n; k++ {
-			for mode := 0; mode < 2*c15NModes; mode++ {
-				kind := mode / c15NModes // 0: plain io.Writer; 1: a writer that also implements io.StringWriter
+			for mode := 0; mode < 3*c15NModes; mode++ {
+				kind := mode / c15NModes // 0: plain io.Writer; 1: a writer that also implements io.StringWriter; 2: one with Flush, Sync and Close methods that succeed
 				mode := mode % c15NModes
 				cs.K, cs.Mode = k, c15ModeNames[mode]
 				cs.Err = fmt.Sprintf("%T %q", c15Errs[(k*7+mode*3+kind)%len(c15Errs)], c15Errs[(k*7+mode*3+kind)%len(c15Errs)].Error())
@@ -237,6 +245,11 @@ func c15Inject(c *Ctx, spec *gen.TableSpec, skipable bool, sample bool) {
 					sw := &scriptStringWriter{scriptWriter{k: k, mode: mode, err: werr}}
 					w, dst = &sw.scriptWriter, sw
 					cs.Mode += " (writer also implements io.StringWriter)"
+				}
+				if kind == 2 {
+					fw := &scriptFlushWriter{scriptWriter{k: k, mode: mode, err: werr}}
+					w, dst = &fw.scriptWriter, fw
+					cs.Mode += " (writer also has Flush, Sync and Close methods, which succeed)"
 				}
 				var err error
 				c.Rec.Count("injections", 1)
@@ -260,7 +273,7 @@ func c15Inject(c *Ctx, spec *gen.TableSpec, skipable bool, sample bool) {
 			}
 		}
 		if sample && n > 3 && c.Rec.WantSample() {
-			c.Rec.Sample(map[string]interface{}{"table": spec, "renderer": rd.name, "fault_free_write_calls": n, "injections": n * 2 * c15NModes})
+			c.Rec.Sample(map[string]interface{}{"table": spec, "renderer": rd.name, "fault_free_write_calls": n, "injections": n * 3 * c15NModes})
 		}
 	}
 }
@@ -490,7 +503,7 @@ func init() {
 	register(&Prop{
 		ID:    "C15",
 		Level: "fault_enumeration",
-		Rule: "for each (table, renderer) the fault-free run counts N Write calls and records the reference bytes; then EVERY k in 1..N x 5 modes {fails from call k on, fails only at call k, accepts half of call k's bytes and returns an error, accepts all of call k's bytes and returns an error, accepts all but one byte of call k and fails from then on} is injected through a scripted io.Writer and again through a scripted writer that also implements io.StringWriter (exhaustive per table and renderer). Renderers: csv, json, markdown, html, html with class/id/caption/row-class generator, text under every registered decoration. " +
+		Rule: "for each (table, renderer) the fault-free run counts N Write calls and records the reference bytes; then EVERY k in 1..N x 5 modes {fails from call k on, fails only at call k, accepts half of call k's bytes and returns an error, accepts all of call k's bytes and returns an error, accepts all but one byte of call k and fails from then on} is injected through a scripted io.Writer and again through a scripted writer that also implements io.StringWriter and through one that also has Flush, Sync and Close methods which succeed (exhaustive per table and renderer). Renderers: csv, json, markdown, html, html with class/id/caption/row-class generator, text under every registered decoration. " +
 			"phase 0: 9 fixed tables (one of them 70 rows tall) chosen to reach every write site (header/no header/empty header/only header, separators leading/trailing/consecutive, ragged and zero-cell rows, multi-line cells, rows extended after attach, no columns) x {plain, JSON skipable default}; phase 1: random tables; phase 2 (thorough): the same renderers writing to a real file whose k-th write(2) fails with ENOSPC under strace -e inject (k random per case or the very first write, 'only k' and 'from k on'); phase 3: the same renderers writing to destinations of other dynamic types on which every write really fails (closed file, read-only file, /dev/full, OS pipe without reader, io.Pipe whose reader has gone). " +
 			"Distinct = distinct (table, renderer); non-trivial = the fault-free run makes at least one Write call.",
 		Assumptions: []string{
@@ -500,7 +513,7 @@ func init() {
 			"each injection runs on a freshly built table and wrapper",
 		},
 		Phases: []Phase{
-			{Name: "9 fixed tables x 2 x all renderers x every k x 5 modes x 2 writer kinds", Exhaustive: true, N: Fixed(nt*2, nt*2), Run: c15Fixed},
+			{Name: "9 fixed tables x 2 x all renderers x every k x 5 modes x 3 writer kinds", Exhaustive: true, N: Fixed(nt*2, nt*2), Run: c15Fixed},
 			{Name: "random tables x all renderers x every k x 5 modes", N: Fixed(32, 2000), Run: c15Random},
 			{Name: "real write(2) failing with ENOSPC under strace (thorough only)", N: Fixed(0, 160), Run: c15Strace},
 			{Name: "9 fixed tables x all renderers x 5 really failing destinations (closed, read-only and /dev/full files, broken OS pipe, broken io.Pipe)", Exhaustive: true, N: Fixed(nt, nt), Run: c15RealDest},
